@@ -109,6 +109,13 @@ def sys_case(ctx, j, tier):
                 ch.lead_contract(now, month=len(ch.contracts) + 1)
             except IndexError:
                 ctx.cat("resolution:refused-lookup-then-carry-on")
+        if rng.random() < 0.2:
+            # (a look-up of a LATER contract of the curve at the same instant, before the plain one)
+            try:
+                ch.lead_contract(now, month=rng.choice([1, 2]))
+                ch.lead_contract(month=1)
+            except IndexError:
+                pass
         c1 = ch.static_hashing()
         c2 = ch.lead_contract(now)
         sym = ch.symbol
